@@ -635,7 +635,8 @@ fn c15_oracle(spec: &ServerSpec, run: &ServerRun) -> Vec<Violation> {
                 ));
             }
             let want = server::expected(ps.template, &ps.inputs, ps.const_k).map(lit);
-            if let Some(o) = outs.iter().find(|o| o.result != Err("Cancelled".to_string()) && (want.is_none() || o.result.clone().ok() != want)) {
+            let rpc_err_ok = |r: &Result<String, String>| !spec.faults.is_empty() && matches!(r, Err(e) if e == "RequestRunError" || e == "SendConstsError" || e.starts_with("MpcError"));
+            if let Some(o) = outs.iter().find(|o| o.result != Err("Cancelled".to_string()) && !rpc_err_ok(&o.result) && (want.is_none() || o.result.clone().ok() != want)) {
                 v.push(viol(
                     "cancel-notification-wrong-kind",
                     "cancel-notification-wrong-kind",
@@ -733,6 +734,25 @@ impl Check for C15 {
                 let mut s = base.clone();
                 s.explicit = base_run.decisions.clone();
                 s.injections = vec![Injection { after_events: kk, action: Action::Cancel { party: p, comp: 1 } }];
+                // in a share of the runs a constants (or run) RPC of this computation additionally fails:
+                // cancel must stay synchronised with tasks that can still notify the destination
+                if i % 3 == 0 {
+                    let ps = &base.policies[0];
+                    let (kind, from) = if ps.template >= 2 && i % 2 == 0 {
+                        ("consts", if ps.template == 3 && i % 4 == 0 { 1 } else { 0 })
+                    } else {
+                        ("run", ps.leader)
+                    };
+                    let tos: Vec<usize> = (0..n).filter(|q| *q != from).collect();
+                    s.faults.push(RpcFault {
+                        kind: kind.into(),
+                        from,
+                        to: tos[(i as usize / 3) % tos.len()],
+                        comp: 1,
+                        nth: 0,
+                        verdict: if i % 5 < 3 { Verdict::FailBefore } else { Verdict::FailAfter },
+                    });
+                }
                 cx.begin(&serde_json::to_value(&s).unwrap());
                 let run = server::run(&s);
                 out.evals += 1;
